@@ -7,6 +7,12 @@ use serde_json::Value;
 pub mod c01;
 pub mod c02_03_05;
 pub mod graphs;
+pub mod c06;
+pub mod c07;
+pub mod c08;
+pub mod c09;
+pub mod c10;
+pub mod c11;
 pub mod c12;
 pub mod c13;
 pub mod c14;
@@ -39,6 +45,12 @@ pub fn get(id: &str) -> Option<Box<dyn Prop>> {
         "C02" => Box::new(c02_03_05::GraphProp(graphs::Which::C02)),
         "C03" => Box::new(c02_03_05::GraphProp(graphs::Which::C03)),
         "C05" => Box::new(c02_03_05::GraphProp(graphs::Which::C05)),
+        "C06" => Box::new(c06::C06),
+        "C07" => Box::new(c07::C07),
+        "C08" => Box::new(c08::C08),
+        "C09" => Box::new(c09::C09),
+        "C10" => Box::new(c10::C10),
+        "C11" => Box::new(c11::C11),
         "C12" => Box::new(c12::C12),
         "C13" => Box::new(c13::C13),
         "C14" => Box::new(c14::C14),
